@@ -1,4 +1,5 @@
 import BornoModel.Eval
+import BornoModel.Lemmas.EvalInv
 /-! # C06 — a runtime error stops the program: true cause, right line, nothing afterwards -/
 namespace Borno.Props.C06
 open Borno
@@ -75,5 +76,41 @@ theorem rte_effect (σ : Store) (msg : List Char) (line : Nat) :
     (σ.rte msg line).diags = σ.diags ++ [.runtime msg line] ∧ (σ.rte msg line).hadError = true ∧
     (σ.rte msg line).out = σ.out ∧ (σ.rte msg line).input = σ.input ∧ (σ.rte msg line).nativeCalls = σ.nativeCalls := by
   simp [Store.rte]
+
+/-- **nothing after the first error**, for whole programs: in the sequence of observable events of any
+    run (writes to stdout, diagnostics, reads of stdin, entries into built-ins), every event after the
+    first diagnostic is itself a diagnostic — no output, no prompt, no read, no built-in — and the error
+    flag is set exactly when a diagnostic was written -/
+theorem nothing_after_first_error (P : Platform) (fuel : Nat) (prog : List Stmt) (repl : Bool) (input : List Char) (σ' : Store)
+    (h : interpret P fuel prog repl input = .ok () σ') :
+    quiet false σ'.trace = true ∧ σ'.hadError = σ'.trace.any Ev.isDiag := by
+  have := sat_interpretLoop P fuel prog 1 repl (initStore input)
+  unfold interpret at h
+  rw [h] at this
+  obtain ⟨new, ht, hq, hf⟩ := this.trace_ext
+  simp [initStore] at ht hq hf
+  rw [ht]; exact ⟨hq, hf⟩
+
+/-- the same from any intermediate point of any evaluation: if the flag is set when a piece of
+    evaluation starts, then when it returns stdout, the unread stdin and the number of built-in calls
+    are what they were — whatever the piece is (loop, call, function body, …) -/
+theorem frozen_after_error (P : Platform) (f : Nat) (e : Expr) (s : Stmt) (env : Nat) (repl : Bool) (σ σ' : Store) (r : Val × Signal)
+    (herr : σ.hadError = true) :
+    (evalE P f e env repl σ = .ok r σ' → σ'.out = σ.out ∧ σ'.input = σ.input ∧ σ'.nativeCalls = σ.nativeCalls) ∧
+    (evalS P f s env repl σ = .ok r σ' → σ'.out = σ.out ∧ σ'.input = σ.input ∧ σ'.nativeCalls = σ.nativeCalls) := by
+  constructor
+  · intro h; have := (allSat P f).e e env repl σ; rw [h] at this; exact this.frozen herr
+  · intro h; have := (allSat P f).s s env repl σ; rw [h] at this; exact this.frozen herr
+
+/-- the first diagnostic of a run is never displaced: later evaluation only appends diagnostics -/
+theorem first_diagnostic_stays (P : Platform) (f : Nat) (s : Stmt) (env : Nat) (repl : Bool) (σ σ' : Store) (r : Val × Signal) (d : Diag)
+    (h : evalS P f s env repl σ = .ok r σ') (hd : σ.diags.head? = some d) : σ'.diags.head? = some d := by
+  have := (allSat P f).s s env repl σ
+  rw [h] at this
+  obtain ⟨ds, hds⟩ := this.diags_ext
+  rw [hds]
+  cases hσ : σ.diags with
+  | nil => rw [hσ] at hd; cases hd
+  | cons x xs => rw [hσ] at hd; simpa using hd
 
 end Borno.Props.C06
